@@ -1,6 +1,7 @@
 import GbVerif.Model.JitCycles
 import GbVerif.Proofs.Enum
 import GbVerif.Proofs.X86Cycles
+import GbVerif.Proofs.TemplateWf
 /-!
 C02 — the recompiler and the interpreter charge identical machine cycles.
 Both tables are regenerated from the source on every run (`Gen.EmitTable` by RUNNING the emitter, `Gen.DecoderOps`
@@ -41,20 +42,8 @@ theorem cycles_eq_cb : ∀ b1, b1 < 2^8 → okCb b1 = true :=
 `jitCycles` is a static analysis of the emitted bytes.  `X86.jitCycles_sound` (in `Proofs/X86Cycles.lean`, by induction
 over the analysis with a frame lemma over every modelled x86 instruction and the bus-call helper) shows that its
 answer bounds every execution of the template on `Model/X86Sem.lean`; the two theorems below instantiate it at all 501
-templates, so the equality of cycle charges is a statement about runs, not about a syntactic pass. -/
-
-/-- well-formedness of one template for the soundness theorem: it decodes, byte offsets identify instructions
-uniquely, none is the end offset, they do not decrease, and the first instruction sits at offset 0 -/
-def wfTemplate (t : List Nat) : Bool :=
-  match decodeCode t with
-  | none => false
-  | some code => X86.codeOk code (bytesOf t) && X86.offAt code (bytesOf t) 0 == 0
-
-theorem wf_unprefixed : ∀ b0, b0 < 2^8 → ((Gen.emitOp b0).isEmpty || wfTemplate (Gen.emitOp b0)) = true :=
-  forall_lt_of_allRange (fun b0 => (Gen.emitOp b0).isEmpty || wfTemplate (Gen.emitOp b0)) 8 (by decide +kernel)
-
-theorem wf_cb : ∀ b1, b1 < 2^8 → wfTemplate (Gen.emitCb b1) = true :=
-  forall_lt_of_allRange (fun b1 => wfTemplate (Gen.emitCb b1)) 8 (by decide +kernel)
+templates (each checked well-formed by the kernel: `Proofs/TemplateWf.lean`), so the equality of cycle charges is a
+statement about runs, not about a syntactic pass. -/
 
 /-- the statement about runs for one template `t` against the decoder entry `(op, len, clk)` -/
 def RunsCharge (t : List Nat) (op : Op) (len clk : Nat) : Prop :=
@@ -63,16 +52,11 @@ def RunsCharge (t : List Nat) (op : Op) (len clk : Nat) : Prop :=
       X86.run B code (bytesOf t) fuel s = .ok s' →
       ∃ l ∈ C, (X86.get s' 15).toNat = ((X86.get s 15).toNat + l) % 2 ^ 64
 
-theorem runsCharge_of (t : List Nat) (op : Op) (len clk : Nat) (hwf : wfTemplate t = true)
+theorem runsCharge_of (t : List Nat) (op : Op) (len clk : Nat) (hwf : offsetsWf t = true)
     (heq : (match jitCycles t, interpCycles op len clk with | some a, some b => a == b | _, _ => false) = true) :
     RunsCharge t op len clk := by
-  unfold wfTemplate at hwf
-  cases hdec : decodeCode t with
-  | none => rw [hdec] at hwf; cases hwf
-  | some code =>
-    rw [hdec] at hwf
-    simp only [Bool.and_eq_true, beq_iff_eq] at hwf
-    cases hj : jitCycles t with
+  obtain ⟨code, hdec, hwf⟩ := offsetsWf_parts hwf
+  · cases hj : jitCycles t with
     | none => rw [hj] at heq; cases heq
     | some a =>
       cases hi : interpCycles op len clk with
@@ -91,8 +75,7 @@ behaviour - leaves r15 (the guest cycle counter) increased, modulo 2^64, by one 
 model makes for that encoding (not taken / taken) -/
 theorem cycles_run_unprefixed (b0 : Nat) (hb : b0 < 2^8) (hne : (Gen.emitOp b0).isEmpty = false) :
     RunsCharge (Gen.emitOp b0) (Gen.decode b0 0 0).1 (Gen.decode b0 0 0).2.1 (Gen.decode b0 0 0).2.2 := by
-  have hwf := wf_unprefixed b0 hb
-  rw [hne, Bool.false_or] at hwf
+  have hwf := offsetsWf_op hb hne
   have hok := cycles_eq_unprefixed b0 hb
   unfold okOp at hok
   simp only [hne, Bool.false_eq_true, if_false] at hok
@@ -101,7 +84,7 @@ theorem cycles_run_unprefixed (b0 : Nat) (hb : b0 < 2^8) (hne : (Gen.emitOp b0).
 /-- the same for all 256 CB-prefixed encodings -/
 theorem cycles_run_cb (b1 : Nat) (hb : b1 < 2^8) :
     RunsCharge (Gen.emitCb b1) (Gen.decode 0xcb b1 0).1 (Gen.decode 0xcb b1 0).2.1 (Gen.decode 0xcb b1 0).2.2 :=
-  runsCharge_of _ _ _ _ (wf_cb b1 hb) (by have := cycles_eq_cb b1 hb; unfold okCb at this; exact this)
+  runsCharge_of _ _ _ _ (offsetsWf_cb b1 hb) (by have := cycles_eq_cb b1 hb; unfold okCb at this; exact this)
 
 /-! non-vacuity: templates do run to completion on the model from a state meeting the hypotheses (16 registers,
 pc = 0), and the charge is the one of the branch outcome — NOP; JR NZ taken / not taken; CALL; RET NZ taken / not -/
